@@ -71,7 +71,7 @@ def finish(prop, tier, level, tot, timer, rule, assumptions, engine_failures, ex
         raise vlib.EngineError("explorer shard failed: " + json.dumps(engine_failures[0])[:3000])
     viols = []
     import glob
-    for old in glob.glob(os.path.join(vlib.VERIF, "replays", prop, tier + "-*.json")):   # replays of earlier runs are stale
+    for old in glob.glob(os.path.join(vlib.OUT, "replays", prop, tier + "-*.json")):   # replays of earlier runs are stale
         os.unlink(old)
     for i, v in enumerate(tot["violations"]):
         path = vlib.write_replay(prop, "%s-%02d" % (tier, i), {"property": prop, "key": v["key"], "what": v["what"], "case": v["replay"]})
